@@ -1906,6 +1906,11 @@ func (t *Topic) anotherUserSub(sess *Session, asUid, target types.Uid, asChan bo
 	// Check if it's a new invite. If so, save it to database as a subscription.
 	// Saved subscription does not mean the user is allowed to post/read
 	userData, existingSub := t.perUser[target]
+	if t.cat == types.TopicCatP2P && !existingSub {
+		// A P2P topic has exactly two participants, both are cached even when deleted: nobody else can be invited.
+		sess.queueOut(ErrPermissionDeniedReply(pkt, now))
+		return nil, errors.New("cannot add a third participant to a p2p topic")
+	}
 	if !existingSub || userData.deleted {
 		// Check if the max number of subscriptions is already reached.
 		if t.cat == types.TopicCatGrp && t.subsCount() >= globals.maxSubscriberCount {
